@@ -6,9 +6,37 @@ package outlier
 
 // ---- C13: whole-set load. The grouping loop must cope with any element, including nil; the rebuild itself
 // (onRuleUpdate) is under a separate contract.
-//@ func onRuleUpdate(rawResRulesMap) err
-//@   requires[holds-the-update-lock]{C15} wlockcount(updateRuleMux) > 0
+//@ spec func validOutlier(r) = r != nil && len(r.Resource) > 0 && r.MaxEjectionPercent >= 0.0 && r.MaxEjectionPercent <= 1.0
+//@ spec func validBreakerRule(r) = r != nil && len(r.Resource) > 0 && r.StatIntervalMs > 0 && r.RetryTimeoutMs > 0 && r.Threshold >= 0.0 && !(r.Strategy == circuitbreaker.SlowRequestRatio && r.Threshold > 1.0) && !(r.Strategy == circuitbreaker.ErrorRatio && r.Threshold > 1.0)
+//@ func IsValidRule(r) err
+//@   props C13
+//@   ensures[iff] err == nil <==> validOutlier(r)
+//@   modifies nothing
+// (circuitbreaker.IsValidRule is used through its own contract, proved in that package: err == nil <==> validRule(r),
+// the same predicate as validBreakerRule here)
+//@ func LogRuleUpdate(m)
 //@   assumed
+//@   panics never
+//@   modifies nothing
+
+// whole-set load, called by LoadRules with the update lock held: the raw map is recorded; the two rule tables in
+// force are new maps with the same keys, holding exactly the entries whose outlier rule AND embedded breaker rule are
+// valid; nothing that existed before is written (the node breakers are rebuilt by updateAllBreakers, assumed)
+//@ func onRuleUpdate(rulesMap) err
+//@   props C13, C15
+//@   requires[holds-the-update-lock]{C15} wlockcount(updateRuleMux) > 0
+//@   ensures[raw-recorded] err == nil ==> currentRules == rulesMap
+//@   ensures[new-tables] err == nil ==> outlierRules != nil && fresh(outlierRules) && breakerRules != nil && fresh(breakerRules)
+//@   ensures[only-valid-rules-in-force] err == nil ==> (forall s Str :: has(outlierRules, s) ==> validOutlier(outlierRules[s]) && has(breakerRules, s) && breakerRules[s] == outlierRules[s].Rule && validBreakerRule(breakerRules[s]))
+//@   ensures[tables-agree] err == nil ==> (forall s Str :: has(breakerRules, s) ==> has(outlierRules, s))
+//@   ensures[every-valid-rule-in-force] err == nil ==> (forall s Str :: has(rulesMap, s) && validOutlier(rulesMap[s]) && validBreakerRule(rulesMap[s].Rule) ==> has(outlierRules, s) && outlierRules[s] == rulesMap[s])
+//@   modifies outlierRules, breakerRules, currentRules, nodeBreakers
+//@   loop 1:
+//@     invariant[new-tables] validRulesMap != nil && fresh(validRulesMap) && validCircuitRulesMap != nil && fresh(validCircuitRulesMap) && validRulesMap != validCircuitRulesMap
+//@     invariant[only-valid] forall s Str :: has(validRulesMap, s) ==> validOutlier(validRulesMap[s]) && has(validCircuitRulesMap, s) && validCircuitRulesMap[s] == validRulesMap[s].Rule && validBreakerRule(validCircuitRulesMap[s])
+//@     invariant[agree] forall s Str :: has(validCircuitRulesMap, s) ==> has(validRulesMap, s)
+//@     invariant[complete-so-far] forall s Str :: sel(#seen, s) && validOutlier(rulesMap[s]) && validBreakerRule(rulesMap[s].Rule) ==> has(validRulesMap, s) && validRulesMap[s] == rulesMap[s]
+//@     invariant[nothing-else-written] frame()
 //@ func LoadRules(rules) (changed, err)
 //@   props C13
 //@   panics never
@@ -104,8 +132,11 @@ package outlier
 //@   requires[holds-the-update-lock]{C15} wlockcount(updateRuleMux) > 0
 //@   modifies heap
 
+// rebuilds every node breaker from the rule tables and swaps the registry (assumed: its loops over maps of maps and
+// the breaker builder are not under contract); it does not touch the rule tables
 //@ func updateAllBreakers()
 //@   assumed
 //@   requires[holds-the-update-lock]{C15} wlockcount(updateRuleMux) > 0
-//@   modifies heap
+//@   panics may
+//@   modifies nodeBreakers
 //@ lockorder updateRuleMux updateMux {C15}
